@@ -454,11 +454,17 @@ def run_check(P, tier, seed, replay=None):
                 # model fails on more than a handful of cases reports a broken correspondence below
                 model_unavailable[0] += 1
                 m = None
-            why = P.predicate(c, i)
-            if not why and m is not None:
-                # optional second predicate that may also look at what the model side printed (e.g. the
-                # verdict of an executable specification that only exists in Lean)
-                why = P.predicate2(c, i, m)
+            try:
+                why = P.predicate(c, i)
+                if not why and m is not None:
+                    # optional second predicate that may also look at what the model side printed (e.g. the
+                    # verdict of an executable specification that only exists in Lean)
+                    why = P.predicate2(c, i, m)
+            except Exception as exc:       # noqa: BLE001
+                # an observation the oracle cannot even read (never happens on the unchanged tree: every generated case is
+                # read there on every run): the implementation produced something outside the observation format
+                why = "the implementation's observation cannot be interpreted by the property predicate (%s: %s): %s" % (
+                    type(exc).__name__, str(exc)[:80], str(i)[:120])
             dis = False
             if m is not None and P.model_skips(c, m):
                 skipped[0] += 1
@@ -477,9 +483,16 @@ def run_check(P, tier, seed, replay=None):
         results = evaluate(cases)
         evaluations += len(results)
         for (c, i, m, why, dis) in results:
-            P.classify(c, i, dist)
-            if P.nontrivial(c, i):
-                nontrivial.add(c)
+            try:
+                P.classify(c, i, dist)        # statistics only: an observation it cannot read (PANIC …) is not its business
+            except Exception:
+                bump_unreadable = dist.setdefault("unreadable-observations", 0)
+                dist["unreadable-observations"] = bump_unreadable + 1
+            try:
+                if P.nontrivial(c, i):
+                    nontrivial.add(c)
+            except Exception:          # noqa: BLE001  (statistics only)
+                pass
             if why:
                 F.append((c, i, why))
             elif dis:
